@@ -65,10 +65,13 @@ func runC05(c *core.Ctx) {
 
 func c05Case(c *core.Ctx, rng *rand.Rand, dir string, idx int, a *apiTrack, st *probeStats) (stop bool) {
 	shape := c05shapes[(idx+c.Batch)%len(c05shapes)]
-	if shape == "overflow" && !(c.Batch%8 == 0 && idx < len(c05shapes)) {
+	if shape == "overflow" && !(c.Batch%4 == 0 && idx < len(c05shapes)) {
 		shape = "rename-then-delete"
 	}
 	cons := c05consumers[rng.Intn(len(c05consumers))]
+	if shape == "overflow" { // the reader must get as far as the overflow record: Events is drained
+		cons = []string{"only-events", "both"}[(c.Batch/4)%2]
+	}
 	buf := []int{-1, 0, 1, 64, 4096}[rng.Intn(5)]
 	params := fmt.Sprintf("shape=%s consumer=%s buffer=%d", shape, cons, buf)
 	var w *fsnotify.Watcher
@@ -89,8 +92,17 @@ func c05Case(c *core.Ctx, rng *rand.Rand, dir string, idx int, a *apiTrack, st *
 	consDone := make(chan struct{})
 	var nev, nerr int64
 	k := 1 + rng.Intn(20)
+	gate := make(chan struct{}) // overflow: nobody receives until the burst is complete, so the kernel queue really overflows
+	if shape != "overflow" {
+		close(gate)
+	}
 	go func() {
 		defer close(consDone)
+		select {
+		case <-gate:
+		case <-stopCons:
+			return
+		}
 		evc, erc := w.Events, w.Errors
 		switch cons {
 		case "only-events":
@@ -151,7 +163,12 @@ func c05Case(c *core.Ctx, rng *rand.Rand, dir string, idx int, a *apiTrack, st *
 	}
 	hung := func(what, dump string) bool {
 		cls := hangClass(dump)
-		if cls == "deadlock:send-under-lock+api-blocked" || cls == "send-under-lock" {
+		if u := atomic.LoadInt64(&st.underLock) - under0; u > 0 {
+			c.Violate("send-under-lock", fmt.Sprintf("[%s] %d channel sends were performed while the Watcher's lock was held by the sender itself (no API call in flight); history %v", params, u, log), log)
+		}
+		if cls == "lock-leaked" {
+			c.Violate("lock-never-released", fmt.Sprintf("[%s] %s did not return: goroutines wait for the Watcher's lock and no goroutine is inside a function that holds it; history %v", params, what, log), dumpExcerpt(dump))
+		} else if cls == "deadlock:send-under-lock+api-blocked" || cls == "send-under-lock" {
 			c.Violate("control-call-blocked-on-consumption", fmt.Sprintf("[%s] %s did not return: %s; history %v", params, what, cls, log), dumpExcerpt(dump))
 		} else {
 			c.Inconclusive(fmt.Sprintf("[%s] %s not returned at the watchdog, dump class %s", params, what, cls))
@@ -222,11 +239,27 @@ func c05Case(c *core.Ctx, rng *rand.Rand, dir string, idx int, a *apiTrack, st *
 	case "overflow":
 		c.Count("pending_error_histories", 1)
 		c.Count("overflow_histories", 1)
-		for k := 0; k < maxQueued()+500; k++ {
+		mq := maxQueued()
+		for k := 0; k < mq+500; k++ {
 			p := filepath.Join(d, fmt.Sprint("o", k))
 			os.WriteFile(p, nil, 0o644)
 		}
+		close(gate)
+		// Let the reader get as far as the overflow record before the control calls start. Logical
+		// condition: the reader has begun one more send than values were consumed after the consumer
+		// took everything that was queued (that extra send is the overflow error: nothing else is
+		// queued), or an error was consumed, or the probe already saw a send under the lock.
+		// The 15 s cap only bounds a broken run.
+		for i := 0; i < 150000; i++ {
+			consumed := atomic.LoadInt64(&nev) + atomic.LoadInt64(&nerr)
+			if atomic.LoadInt64(&nerr) > 0 || atomic.LoadInt64(&st.underLock) > under0 ||
+				(atomic.LoadInt64(&nev) >= int64(mq) && atomic.LoadInt64(&st.sends)-sends0 > consumed) {
+				break
+			}
+			time.Sleep(100 * time.Microsecond)
+		}
 	}
+	c.Note("after history: events consumed %d errors consumed %d underLock %d sends %d", atomic.LoadInt64(&nev), atomic.LoadInt64(&nerr), atomic.LoadInt64(&st.underLock)-under0, atomic.LoadInt64(&st.sends)-sends0)
 	time.Sleep(time.Duration(rng.Intn(4)) * time.Millisecond)
 	// --- control calls while things are pending
 	nd := filepath.Join(base, "new")
@@ -249,9 +282,34 @@ func c05Case(c *core.Ctx, rng *rand.Rand, dir string, idx int, a *apiTrack, st *
 		}
 		c.Count("control_calls_returned", 1)
 	}
-	// concurrent Close x 1..8, then once more
+	// concurrent Close x 1..8 (with WatchList/Remove/Add racing them), then once more
 	nc := 1 + rng.Intn(8)
 	var wg sync.WaitGroup
+	stopRace := make(chan struct{})
+	var raceWG sync.WaitGroup
+	for g := 0; g < 2; g++ {
+		raceWG.Add(1)
+		seed := rng.Int63()
+		go func() {
+			defer raceWG.Done()
+			r := rand.New(rand.NewSource(seed))
+			for k := 0; k < 300; k++ {
+				select {
+				case <-stopRace:
+					return
+				default:
+				}
+				switch r.Intn(3) {
+				case 0:
+					a.call(func() { w.WatchList() })
+				case 1:
+					a.call(func() { w.Remove(d) })
+				default:
+					a.call(func() { w.Add(d) })
+				}
+			}
+		}()
+	}
 	var notRet int32
 	var firstDump string
 	var dmu sync.Mutex
@@ -273,6 +331,11 @@ func c05Case(c *core.Ctx, rng *rand.Rand, dir string, idx int, a *apiTrack, st *
 		}()
 	}
 	wg.Wait()
+	close(stopRace)
+	if ok, dump := core.WithWatchdog(twin.WatchdogTimeout, raceWG.Wait); !ok {
+		close(stopCons)
+		return hung("an Add/Remove/WatchList call racing Close", dump)
+	}
 	close(stopCons)
 	c.Eval(1)
 	if atomic.LoadInt64(&st.sends) > sends0 {
